@@ -2,28 +2,196 @@ package harness
 
 import (
 	"context"
+	"errors"
+	"time"
 
 	"github.com/aperturerobotics/util/routine"
 	"gobmc/vrt"
 )
 
+// rtProbe is the harness-side bookkeeping shared by the routine harnesses: instances count
+// themselves in and out (overlap = two inside at once) and register their context in entry
+// order.
+type rtProbe struct {
+	active  int
+	entered int
+	ctxs    [6]context.Context
+	states  [6]int
+}
+
+// enter registers an instance; all earlier registered instances must be over or cancelled.
+func (p *rtProbe) enter(ctx context.Context, st int) {
+	vrt.Atomic(func() {
+		p.active++
+		vrt.Assert(p.active == 1, "routine-overlap")
+		for i := 0; i < p.entered && i < 6; i++ {
+			vrt.Assert(p.ctxs[i].Err() != nil, "superseded-instance-not-cancelled")
+		}
+		if p.entered < 6 {
+			p.ctxs[p.entered] = ctx
+			p.states[p.entered] = st
+		}
+		p.entered++
+	})
+}
+
+func (p *rtProbe) leave() { vrt.Atomic(func() { p.active-- }) }
+
+// untilCancelled is a routine that runs until its context is cancelled (its exit latency is
+// unbounded: it returns whenever the scheduler lets it).
+func (p *rtProbe) untilCancelled(ctx context.Context) error {
+	p.enter(ctx, 0)
+	<-ctx.Done()
+	p.leave()
+	return context.Canceled
+}
+
+// snapshot returns the number of registered instances (call before a superseding operation).
+func (p *rtProbe) snapshot() int {
+	var n int
+	vrt.Atomic(func() { n = p.entered })
+	return n
+}
+
+// cancelledBefore asserts that every instance registered before snapshot n is cancelled.
+func (p *rtProbe) cancelledBefore(n int, id string) {
+	vrt.Atomic(func() {
+		for i := 0; i < n && i < 6; i++ {
+			vrt.Assert(p.ctxs[i].Err() != nil, "superseded-instance-live-after-call-returned")
+		}
+	})
+	_ = id
+}
+
 // H_C04_Restart2: container with context+routine; two RestartRoutine calls while the first
 // instance may still be inside the function (its exit latency is unbounded).
 func H_C04_Restart2() {
-	var active int
-	fn := func(ctx context.Context) error {
-		vrt.Atomic(func() {
-			active++
-			vrt.Assert(active == 1, "routine-overlap")
-		})
-		<-ctx.Done()
-		vrt.Atomic(func() { active-- })
-		return context.Canceled
+	var p rtProbe
+	k := routine.NewRoutineContainer()
+	k.SetContext(context.Background(), false)
+	k.SetRoutine(p.untilCancelled)
+	n := p.snapshot()
+	if k.RestartRoutine() {
+		p.cancelledBefore(n, "restart")
+	}
+	n = p.snapshot()
+	if k.RestartRoutine() {
+		p.cancelledBefore(n, "restart")
+	}
+	k.ClearContext() // every instance is eventually told to stop, so none may stay blocked
+}
+
+// H_C04_SetRoutine2: SetRoutine(A); SetRoutine(B) (channel returned must close only after
+// every instance of A has returned); RestartRoutine; ClearContext.
+func H_C04_SetRoutine2() {
+	var p rtProbe
+	activeA := 0
+	fnA := func(ctx context.Context) error {
+		vrt.Atomic(func() { activeA++ })
+		err := p.untilCancelled(ctx)
+		vrt.Atomic(func() { activeA-- })
+		return err
 	}
 	k := routine.NewRoutineContainer()
 	k.SetContext(context.Background(), false)
+	k.SetRoutine(fnA)
+	k.RestartRoutine()
+	n := p.snapshot()
+	ch, reset := k.SetRoutine(p.untilCancelled)
+	if reset {
+		p.cancelledBefore(n, "setroutine")
+	}
+	if ch != nil {
+		vrt.Go("wait-return", func() {
+			<-ch
+			vrt.Atomic(func() { vrt.Assert(activeA == 0, "wait-return-closed-before-previous-returned") })
+		})
+	}
+	k.RestartRoutine()
+	k.ClearContext()
+}
+
+// H_C04_SetContext2: supersession through SetContext(B, restart) followed by RestartRoutine.
+func H_C04_SetContext2() {
+	var p rtProbe
+	ctxA, cancelA := context.WithCancel(context.Background())
+	ctxB, cancelB := context.WithCancel(context.Background())
+	_, _ = cancelA, cancelB
+	k := routine.NewRoutineContainer()
+	k.SetRoutine(p.untilCancelled)
+	k.SetContext(ctxA, false)
+	n := p.snapshot()
+	if k.SetContext(ctxB, vrt.Bool("restart")) {
+		p.cancelledBefore(n, "setcontext")
+	}
+	k.RestartRoutine()
+	k.ClearContext()
+}
+
+// H_C04_State2: StateRoutineContainer: two SetState calls and a restart inside one exit latency.
+func H_C04_State2() {
+	var p rtProbe
+	k := routine.NewStateRoutineContainer[int](nil)
+	k.SetContext(context.Background(), false)
+	k.SetStateRoutine(func(ctx context.Context, st int) error {
+		p.enter(ctx, st)
+		<-ctx.Done()
+		p.leave()
+		return context.Canceled
+	})
+	k.SetState(1)
+	n := p.snapshot()
+	ch, _, reset, _ := k.SetState(2)
+	if reset {
+		p.cancelledBefore(n, "setstate")
+	}
+	if ch != nil {
+		vrt.Go("wait-return", func() {
+			<-ch
+			// the channel returned by SetState closes only after all earlier instances returned
+			vrt.Atomic(func() {
+				for i := 0; i < n && i < 6; i++ {
+					vrt.Assert(p.ctxs[i].Err() != nil, "setstate-channel-early")
+				}
+			})
+		})
+	}
+	k.RestartRoutine()
+	k.ClearContext()
+}
+
+type oneMsBackoff struct{}
+
+func (oneMsBackoff) NextBackOff() time.Duration { return time.Millisecond }
+func (oneMsBackoff) Reset()                     {}
+
+// H_C04_Retry: with a backoff the first instance fails at once, the retry timer fires at the
+// Advance, and a RestartRoutine lands around it: still no two instances at once.
+func H_C04_Retry() {
+	var p rtProbe
+	errFail := errors.New("fail")
+	runs := 0
+	fn := func(ctx context.Context) error {
+		var first bool
+		vrt.Atomic(func() { runs++; first = runs == 1 })
+		if first {
+			p.enter(ctx, 0)
+			p.leave()
+			return errFail
+		}
+		return p.untilCancelled(ctx)
+	}
+	k := routine.NewRoutineContainer(routine.WithBackoff(oneMsBackoff{}))
+	k.SetContext(context.Background(), false)
 	k.SetRoutine(fn)
-	k.RestartRoutine()
-	k.RestartRoutine()
-	k.ClearContext() // every instance is eventually told to stop, so none may stay blocked
+	vrt.AtQuiescence(func() {
+		vrt.Advance()
+		k.RestartRoutine()
+		vrt.AtQuiescence(func() {
+			var n int
+			vrt.Atomic(func() { n = runs })
+			vrt.Assert(n >= 2, "failed-routine-run-again")
+			k.ClearContext()
+		})
+	})
 }
